@@ -1632,7 +1632,7 @@ fn c20(ctx: &CaseCtx, obs: &CaseObs, exp: Option<&Expect>, l: &mut Local) {
             (x, y) => x.panicked().is_some() && y.panicked().is_some(),
         };
         if !same {
-            let sig = classify_variant(ctx, v.label, b);
+            let sig = classify_variant(ctx, v.label, a, b);
             l.violation(
                 sig,
                 format!("option set {}: try_parse_partial is {:?}, the default build gives {:?}", v.label, typed_end(b), typed_end(a)),
@@ -1642,7 +1642,7 @@ fn c20(ctx: &CaseCtx, obs: &CaseObs, exp: Option<&Expect>, l: &mut Local) {
         }
         // full parse verdict as well
         if o.s.parse.class() != obs.s.parse.class() && o.s.parse.ran() && obs.s.parse.ran() {
-            let sig = classify_variant(ctx, v.label, b);
+            let sig = classify_variant(ctx, v.label, a, b);
             l.violation(
                 sig,
                 format!("option set {}: try_parse is {}, the default build gives {}", v.label, o.s.parse.class(), obs.s.parse.class()),
@@ -1652,11 +1652,26 @@ fn c20(ctx: &CaseCtx, obs: &CaseObs, exp: Option<&Expect>, l: &mut Local) {
     }
 }
 
-fn classify_variant(ctx: &CaseCtx, label: &str, got: &Res<NodeObs>) -> String {
+/// Does the model outcome predict exactly this observation (verdict, consumed length, pruned tree)?
+fn predicts(ctx: &CaseCtx, o: &Outcome, r: &Res<NodeObs>) -> bool {
+    if o.exhausted {
+        return false;
+    }
+    match r {
+        Res::Ok(n) => o.end == Some(n.end) && prune(&o.tokens, &ctx.model.kinds) == n.tokens,
+        Res::Err(_) => o.end.is_none(),
+        _ => false,
+    }
+}
+
+/// A difference between the `pest_optimizer = false` build and the default build carries the known
+/// signature only if BOTH sides are what the models of that root cause predict: the default build
+/// does what the optimized tree says, and the variant does what the raw tree says when its
+/// counted repetitions are read as pest-typed reads them (`e (skip e)*`). A default build that is
+/// itself off, or a variant that deviates in any other way, stays unclassified.
+fn classify_variant(ctx: &CaseCtx, label: &str, base: &Res<NodeObs>, got: &Res<NodeObs>) -> String {
     if label.contains("noopt") {
-        // the raw AST read with pest-typed's `e (skip e)*` repetition explains the known divergence
         if let Ok(raw) = Grammar::raw(ctx.entry.grammar) {
-            let o = refpeg::run(&raw, ctx.rule.name, &ctx.case.s, 0, ctx.case.s.len(), &full_opts());
             let has_counted = raw.rules.iter().any(|r| {
                 let mut hit = false;
                 r.expr.walk(&mut |n| {
@@ -1666,14 +1681,15 @@ fn classify_variant(ctx: &CaseCtx, label: &str, got: &Res<NodeObs>) -> String {
                 });
                 hit
             });
-            if has_counted && !o.exhausted && Some(o.end) == typed_end(got) {
-                return "C20/known/optimizer-off-repetition-stops-before-trailing-skip".into();
-            }
             if has_counted {
+                let o = refpeg::run(&raw, ctx.rule.name, &ctx.case.s, 0, ctx.case.s.len(), &full_opts());
+                if predicts(ctx, &o, got) && predicts(ctx, &run_model(ctx, &full_opts()), base) {
+                    return "C20/known/optimizer-off-repetition-stops-before-trailing-skip".into();
+                }
                 // together with another known root cause (which the default build shows on this case too)
                 for e in emulations(ctx) {
                     let o = refpeg::run(&raw, ctx.rule.name, &ctx.case.s, 0, ctx.case.s.len(), &e.opts);
-                    if !o.exhausted && Some(o.end) == typed_end(got) {
+                    if predicts(ctx, &o, got) && predicts(ctx, &run_model(ctx, &e.opts), base) {
                         return format!("C20/known/optimizer-off-repetition-stops-before-trailing-skip+{}", e.name);
                     }
                 }
